@@ -1484,7 +1484,12 @@ func (f *framing) ruleFrameConstants(rule string) {
 // not deliver a valid typed message is guarded by one of the five standard
 // reasons (or empty input); an unlisted rejection means some valid frame is
 // not recognised.
-func (f *framing) ruleRejectionSites(rule string) {
+func (f *framing) ruleRejectionSites(rule string) { f.ruleRejectionSitesOf(rule, false) }
+
+// ruleRejectionSitesOf with helperOnly checks only the leader helper, which is
+// evaluated on the first five bytes of a candidate frame: a rejection there
+// that depends on anything but the leader splits a frame before it is complete.
+func (f *framing) ruleRejectionSitesOf(rule string, helperOnly bool) {
 	c, pl := f.c, f.pl
 	_, start := f.P.frameConsts()
 	leader := int64(3)
@@ -1536,6 +1541,9 @@ func (f *framing) ruleRejectionSites(rule string) {
 		}
 	})
 	for i, r := range returnsOf(fn) {
+		if helperOnly {
+			break
+		}
 		label := fmt.Sprintf("GetMessage:exit#%d", i+1)
 		msg := r.Results[0]
 		valid := false
@@ -1637,7 +1645,7 @@ func (f *framing) ruleRejectionSites(rule string) {
 	g := pl.checkCRC
 	frame := ssa.Value(g.Params[len(g.Params)-1])
 	for i, r := range returnsOf(g) {
-		if isNilConst(r.Results[0]) {
+		if isNilConst(r.Results[0]) || helperOnly {
 			continue
 		}
 		label := fmt.Sprintf("crc-gate:exit#%d", i+1)
@@ -1685,7 +1693,11 @@ func (f *framing) ruleRejectionSites(rule string) {
 		seen["crc:"+kind] = true
 		c.OK(rule, label+":"+kind, r.Pos(), "rejection for a standard reason")
 	}
-	for _, k := range []string{"preamble", "leader(reserved/length/short)", "incomplete", "crc", "helper:reserved-bits", "helper:zero-length", "crc:crc-mismatch"} {
+	want := []string{"preamble", "leader(reserved/length/short)", "incomplete", "crc", "helper:reserved-bits", "helper:zero-length", "crc:crc-mismatch"}
+	if helperOnly {
+		want = []string{"helper:reserved-bits", "helper:zero-length"}
+	}
+	for _, k := range want {
 		c.Check(seen[k], rule, "reason-present("+k+")", token.NoPos, "the standard rejection reason is implemented", "standard rejection reason missing: "+k)
 	}
 }
